@@ -42,6 +42,12 @@ EXTRA = [
     "x = 1e999\ny = a[1:2, ::3]\nz = -1 ** 2\n",
     "ws = ['a', 'bb']\nm = max((len(w) for w in ws), default=0)\nn = sum((i for i in range(3)), **{})\no = f((x for x in ws), *ws)\n",
     "def h(p=1, /, q=2, *, r=3, **s):\n    return lambda u=p, /, v=q, *w, x=r: (u, v, w, x)\nk = lambda a=1, b=2, /: a\n",
+    # every shape of index in a STORE target (slices, tuples of slices, tuples mixing slices with plain items and ...), in plain,
+    # annotated, augmented, destructuring and loop-target position
+    "m[:, 0] = v\nm[1, 2:4] = v\nm[..., 1:] = v\nm[::2, ::3] = v\nm[1:2] = v\nm[1, 2] = v\nm[(1, 2)] = v\nm[:] = v\n",
+    "m[:, 0] += v\nm[1, 2:4] *= v\nm[..., 1:] |= v\nm[a:b, c] -= v\nm[1:2] += v\n",
+    "m[:, 0]: int = v\na, m[:, 1] = v\n(m[0, :], b), c = v\nfor m[0, :] in v:\n    pass\nfor m[1:2, k], j in v:\n    pass\n",
+    "def f(m, v):\n    m[:, 0] = v\n    m[i, j:k] += v\n    return m\nclass K:\n    m[:, 0] = v\n    m[1:, 2] += v\n",
 ]
 
 
